@@ -17,6 +17,7 @@ EXTENDS Integers, Sequences, FiniteSets, TLC, Json
 
 CONSTANTS MaxLen,      \* number of events in a behaviour
           MaxDepth,    \* nesting depth explored
+          TurnInside,  \* TRUE: turn_memory_guarding_* may also be called inside scopes
           EmitHist     \* TRUE: carry the history and emit every maximal behaviour as JSON (conformance runs)
 
 Managers == {"no_autodiff", "mem_guard_off", "mem_guard_on"}
@@ -60,9 +61,11 @@ Exit(raising) ==
      /\ stack' = SubSeq(stack, 1, Len(stack) - 1)
      /\ Log([k |-> "exit", m |-> m, form |-> stack[Len(stack)].form, raising |-> raising], g2)
 
-\* turn_memory_guarding_on / _off, called outside any scope: sets the process-wide default
+\* turn_memory_guarding_on / _off: writes MEM_GUARD directly.  Outside any scope it sets the process-wide default;
+\* inside a scope it only lasts until a memory-guard scope that encloses the call exits (that exit restores what was
+\* in force when the scope was entered).  TurnInside = FALSE restricts the model to calls outside scopes.
 Turn(b) ==
-  /\ Room /\ stack = <<>>
+  /\ Room /\ (stack = <<>> \/ TurnInside)
   /\ g' = [g EXCEPT !.guard = b]
   /\ UNCHANGED <<depth, saved, stack>>
   /\ Log([k |-> "turn", on |-> b], [g EXCEPT !.guard = b])
@@ -74,7 +77,11 @@ Spec == Init /\ [][Next]_vars
 
 \* ------------------------------------------------------------------ properties
 \* every exit re-establishes exactly the pair of switches recorded at the matching entry
-ScopedRestore == [][Len(stack') < Len(stack) => g' = stack[Len(stack)].g0]_vars
+ScopedRestore == [][Len(stack') < Len(stack) =>
+                      LET fr == stack[Len(stack)] IN
+                      /\ g'[Global(fr.m)] = fr.g0[Global(fr.m)]                                  \* own switch: entry value
+                      /\ \A k \in {"track", "guard"} : k # Global(fr.m) => g'[k] = g[k]          \* other switch: untouched
+                      /\ (~TurnInside => g' = fr.g0)]_vars
 \* entering sets the manager's switch and leaves the other one alone
 EnterSets == [][Len(stack') > Len(stack) =>
                   LET m == stack'[Len(stack')].m IN
